@@ -316,3 +316,41 @@ func (p *Prog) LabelIndex() map[string]int {
 	}
 	return m
 }
+
+// staticValid: for a program made of data directives, reservations, labels and
+// silent statements only, every size follows from the source text; reports
+// whether the program is valid by the model (no negative reservation) and
+// whether that could be decided (false when an instruction's size is needed).
+func (p *Prog) staticValid() (valid bool, decided bool) {
+	origin, off := int64(0), int64(0)
+	for _, s := range p.Stmts {
+		switch s.K {
+		case "org":
+			origin = s.N
+		case "data":
+			for _, it := range s.Items {
+				off += int64(itemLen(it, s.W))
+			}
+		case "resb":
+			if s.N < 0 {
+				return false, true
+			}
+			off += s.N
+		case "resbto":
+			cnt := s.N - (origin + off)
+			if cnt < 0 {
+				return false, true
+			}
+			off += cnt
+		case "alignb":
+			if s.N <= 0 {
+				return false, true
+			}
+			off += (s.N - ((origin + off) % s.N)) % s.N
+		case "label", "equ", "bits", "global", "extern", "format", "file", "raw":
+		default:
+			return false, false
+		}
+	}
+	return true, true
+}
